@@ -55,6 +55,7 @@ def plan(tier, seed):
     specs += [{"kind": "exh2", "size": SIZES[tier], "stride": nsh, "offset": i} for i in range(nsh)]
     specs += [{"kind": "po", "n": 90 if tier == "quick" else 900, "sub": 100 + i} for i in range(nsh)]
     specs += [{"kind": "block", "n": 40 if tier == "quick" else 400, "sub": 200 + i} for i in range(nsh)]
+    specs += [{"kind": "scale", "n": 3 if tier == "quick" else 14, "sub": 300 + i} for i in range(nsh)]
     return specs
 
 
@@ -64,7 +65,7 @@ def floors(tier):
             "cls:tag:neg:hastype": 3, "re:cls:tag:neg:cmp.*": 100, "re:ElseIf(@.*)?\\.enter": 500,
             "re:AND(@.*)?\\.enter": 500, "cls:nvars=2": 50, "cls:nvars=3": 50,
             "cls:partial_order:sets": 150, "cls:partial_order:nan": 150, "cls:partial_order:falsy_pred_arg": 150,
-            "cls:block_style_predicate_terms": 200, "cls:negation_applied_to_the_description": 300, "cls:preceded_by_an_abandoned_evaluation": 1500, "cls:operand_is_single_solution_subquery": 200, "cls:block_style_negated_term": 100}
+            "cls:block_style_predicate_terms": 200, "cls:negation_applied_to_the_description": 300, "cls:preceded_by_an_abandoned_evaluation": 1500, "re:cls:scale:.*": 140, "cls:operand_is_single_solution_subquery": 200, "cls:block_style_negated_term": 100}
 
 
 def _po_case(rng):
@@ -164,6 +165,16 @@ def cases(spec, ctx):
         for i in range(spec["n"]):
             yield _block_case(ctx.rng(spec["sub"], i))
         return
+    if spec["kind"] == "scale":
+        # SIZE: the complement over domains of 80-300 objects, self-joins with more than a thousand pairs, 6-9 operands, 5-6 variables
+        fl = ["selfjoin_big", "single_big", "wide_join", "many_vars", "join_big", "single_big", "selfjoin_big"]
+        for i in range(spec["n"]):
+            rng = ctx.rng(spec["sub"], i)
+            case = multi.gen_scale_case(rng, fl[(spec["sub"] + i) % len(fl)])
+            case["sel"] = list(range(len(case["kinds"])))
+            case.update({"k": "rand", "wrap": [rng.choice(["not", "~"])], "take_first": 0, "scale_case": True})
+            yield case
+        return
     if spec["kind"] == "po":
         for i in range(spec["n"]):
             yield _po_case(ctx.rng(spec["sub"], i))
@@ -231,6 +242,8 @@ def check_case(case, ctx):
     ctx.cls(f"cls:nvars={len(kinds)}")
     if case.get("not_of_description"):
         ctx.cls("cls:negation_applied_to_the_description")
+    if case.get("scale"):
+        ctx.cls("cls:scale:" + case["scale"])
     if case.get("take_first"):
         ctx.cls("cls:preceded_by_an_abandoned_evaluation")
     if case.get("k") == "po":
